@@ -578,6 +578,14 @@ class ExprSrc:
     def emit(self, text):
         self.stmts.append(text)
 
+    def const_expr(self):
+        """an expression without variables: values assigned to variables stay small (V = V * V * V in a loop leaves 64 bits,
+        which is outside the models and outside this property)"""
+        saved, self.vars = self.vars, []
+        e = self.expr()
+        self.vars = saved
+        return e
+
     def block(self, depth, in_func):
         rng = self.rng
         for _ in range(rng.randrange(1, 5)):
@@ -587,10 +595,10 @@ class ExprSrc:
             elif k < 0.36:
                 if len(self.vars) < 4 and rng.random() < 0.6:
                     v = ["VA", "VB", "VC", "VD"][len(self.vars)]
-                    self.emit(rng.choice(["INT ", "Int "]) + v + rng.choice([" = ", "=", " =" + self.gap()]) + self.expr())
+                    self.emit(rng.choice(["INT ", "Int "]) + v + rng.choice([" = ", "=", " =" + self.gap()]) + self.const_expr())
                     self.vars.append(v)
-                elif self.vars:
-                    self.emit(rng.choice(self.vars) + rng.choice([" = ", "="]) + self.expr())
+                elif [v for v in self.vars if v != "A"]:
+                    self.emit(rng.choice([v for v in self.vars if v != "A"]) + rng.choice([" = ", "="]) + self.const_expr())
                 else:
                     self.emit("c")
             elif k < 0.46:
@@ -711,9 +719,9 @@ def run_expressions(ctx, n):
         if len(ctx.samples) < 12 and multi.count("\n") > flat.count("\n") + 2:
             ctx.sample({"source": multi[:400], "log": vlib.dec_text(got[4 * j].split("\t")[1])[:300] if "\t" in got[4 * j] else ""})
     sub = [(c[0], got[4 * j + 2]) for j, c in enumerate(cases) if len(c[0]) < 600]
-    mod = ctx.model(["compile_script\t%s" % vlib.enc_text(s) for s, _ in sub], driver="script")
+    mod = ctx.model(["compile_script\t%s" % vlib.enc_text(s) for s, _ in sub], driver="script", stall=15)
     for (s, g), m in zip(sub, mod):
-        if m.startswith("UNSUPPORTED") or m.startswith("OUTOFFUEL"):
+        if m.startswith("UNSUPPORTED") or m.startswith("OUTOFFUEL") or m in ("HANG", "ABORT"):
             ctx.unsupported += 1
             ctx.dist["script_unsupported_expr"] = ctx.dist.get("script_unsupported_expr", 0) + 1
         elif m != g:
